@@ -547,8 +547,14 @@ def gen_grids(rng, n):
     kinds = ["regular", "regular", "perturbed", "random"]
     out, meta = [], []
     for k in range(n):
-        a, sd = boxes[k % len(boxes)] if k < 2 * len(boxes) else (
-            tuple(_offset(rng) for _ in range(3)), tuple(_side(rng, rng.choice([1., 0.3, 10., 3.086e16])) for _ in range(3)))
+        if k < 2 * len(boxes):
+            a, sd = boxes[k % len(boxes)]
+        else:
+            # one length scale per box, aspect ratio <= 1e3, anchor offset <= 1e3 box sizes per axis (independent)
+            base = rng.choice([1., 0.3, 10., 3.086e16, 10 ** rng.uniform(-3, 3)])
+            sd = tuple(base * rng.choice([1., 1., rng.random() + 0.01, 10 ** rng.uniform(-3, 0)]) for _ in range(3))
+            a = tuple(rng.choice([0., -0.5 * sd[c], base * rng.uniform(-3, 3), base * rng.choice([1., -1.]) * 10 ** rng.uniform(0, 3)])
+                      for c in range(3))
         kind = kinds[(k // len(boxes) + k) % len(kinds)] if k < 2 * len(boxes) else rng.choice(kinds)
         pts = []
         if kind in ("regular", "perturbed"):
